@@ -28,7 +28,7 @@ SPEC = {
         {"name": "bool_block", "run": "^TestBoolBlock$", "quick": B(2000, 1), "thorough": B(30000, 1, 3000)},
         {"name": "string_block", "run": "^TestStringBlock$", "quick": B(2000, 2), "thorough": B(45000, 2, 3000)},
         {"name": "record_codec", "run": "^TestRecordCodec$", "quick": B(4000, 1), "thorough": B(120000, 1, 3000)},
-        {"name": "row_batch", "run": "^TestRowBatch$", "quick": B(1200, 3), "thorough": B(30000, 3, 3000)},
+        {"name": "row_batch", "run": "^TestRowBatch$", "quick": B(1200, 3), "thorough": B(15000, 3, 3000)},
         {"name": "data_file", "run": "^TestDataFile$", "quick": B(1200, 3), "thorough": B(25000, 3, 3000)},
     ],
     "fuzz": [
